@@ -18,7 +18,8 @@ def Opening (s : St) (op : Op) (r : Nat) (ra ra' : Ra) : Prop :=
 
 /-- what a step may do to the record of `r` -/
 def Frame (s : St) (op : Op) (r : Nat) (ra ra' : Ra) : Prop :=
-  (ra'.bridge = ra.bridge ∨ Opening s op r ra ra') ∧ (ra'.chan = ra.chan ∨ (ra.chan = none ∧ ∃ via, op = .chopen r via) ∨ op = .link r) ∧
+  (ra'.bridge = ra.bridge ∨ Opening s op r ra ra' ∨
+    (op = .premd r ∧ ra.md = false ∧ ra'.tph = ra.tph ∧ ra'.bal = ra.bal ∧ ra'.nOpen = ra.nOpen ∧ ra'.md = true)) ∧ (ra'.chan = ra.chan ∨ (ra.chan = none ∧ ∃ via, op = .chopen r via) ∨ op = .link r) ∧
   ra'.id = ra.id
 
 theorem handshake_chan (ra : Ra) (ph : Nat) (p : Pkt) : (handshake ra ph p).1.chan = ra.chan ∧ (handshake ra ph p).1.id = ra.id := by
@@ -150,6 +151,18 @@ theorem step_frame (s : St) (op : Op) (r : Nat) (ra : Ra) (hg : getRa s r = some
         | (refine upd r0 ra0 _ hr0 rfl ?_
            intro _ h00; subst h00
            exact ⟨Or.inl rfl, Or.inl rfl, rfl⟩)
+  | premd r0 =>
+    simp only [step, stepPremd]
+    cases hr0 : getRa s r0 with
+    | none => exact keep
+    | some ra0 =>
+      simp only
+      repeat' split
+      all_goals first
+        | exact keep
+        | (refine upd r0 ra0 _ hr0 rfl ?_
+           intro hr h00; subst h00; subst hr
+           exact ⟨Or.inr (Or.inr ⟨rfl, by simp_all, rfl, rfl, rfl, rfl⟩), Or.inl rfl, rfl⟩)
   | chopen r0 via =>
     simp only [step, stepChopen]
     cases hr0 : getRa s r0 with
@@ -193,7 +206,7 @@ theorem step_frame (s : St) (op : Op) (r : Nat) (ra : Ra) (hg : getRa s r = some
             · rw [if_pos hok]
               refine upd r0 ra0 _ hr0 (handshake_chan ra0 ph p).2 ?_
               intro hr h00; subst h00; subst hr
-              refine ⟨Or.inr ⟨c, ph, p, c', rfl, hc, by simpa using ht, by simpa using hok, ?_, rfl⟩,
+              refine ⟨Or.inr <| Or.inl ⟨c, ph, p, c', rfl, hc, by simpa using ht, by simpa using hok, ?_, rfl⟩,
                       Or.inl (handshake_chan ra0 ph p).1, (handshake_chan ra0 ph p).2⟩
               simp only [step, stepRecv, hc, hr0, if_neg ht, if_pos hok]
             · rw [if_neg hok]; exact keep
@@ -226,6 +239,8 @@ theorem step_chans (s : St) (op : Op) : ∃ l, (step s op).1.chans = s.chans ++ 
                  | exact ⟨[], by simp⟩
   | canon r => simp only [step, stepCanon]; repeat' split
                all_goals exact ⟨[], by simp [setRa_chans]⟩
+  | premd r => simp only [step, stepPremd]; repeat' split
+               all_goals exact ⟨[], by simp [setRa_chans]⟩
   | chopen r via => simp only [step, stepChopen]; repeat' split
                     all_goals first
                       | exact ⟨[_], rfl⟩
@@ -253,24 +268,25 @@ theorem run_find (s : St) (ops : List Op) (c : Nat) (k : Nat × ChanKind) (h : s
 -- ---------------------------------------------------------------- once open, open for good
 
 /-- an open bridge is never touched again: along any op sequence the proof height, the credited
-    balances, the metadata flag and the handshake counter of a rollapp whose handshake has completed
-    stay what they are -/
+    balances and the handshake counter of a rollapp whose handshake has completed stay what they are,
+    and registered metadata stays registered -/
 theorem run_opened (s : St) (ops : List Op) (r : Nat) (ra : Ra) (hg : getRa s r = some ra) (ht : ra.tph ≠ 0) :
-    ∃ ra', getRa (run s ops) r = some ra' ∧ ra'.bridge = ra.bridge := by
+    ∃ ra', getRa (run s ops) r = some ra' ∧ ra'.tph = ra.tph ∧ ra'.bal = ra.bal ∧ ra'.nOpen = ra.nOpen ∧
+      (ra.md = true → ra'.md = true) := by
   induction ops generalizing s ra with
-  | nil => exact ⟨ra, hg, rfl⟩
+  | nil => exact ⟨ra, hg, rfl, rfl, rfl, id⟩
   | cons op ops ih =>
     simp only [run, List.foldl_cons]
     obtain ⟨ra1, hg1, hf, _⟩ := step_frame s op r ra hg
-    have hb : ra1.bridge = ra.bridge := by
-      rcases hf with hf | ⟨_, _, _, _, _, _, h0, _⟩
-      · exact hf
+    have hb : ra1.tph = ra.tph ∧ ra1.bal = ra.bal ∧ ra1.nOpen = ra.nOpen ∧ (ra.md = true → ra1.md = true) := by
+      rcases hf with hf | ⟨_, _, _, _, _, _, h0, _⟩ | ⟨_, _, h1, h2, h3, h4⟩
+      · simp only [Ra.bridge, Prod.mk.injEq] at hf
+        exact ⟨hf.1, hf.2.1, hf.2.2.2, fun h => by rw [hf.2.2.1]; exact h⟩
       · exact absurd h0 ht
-    have ht1 : ra1.tph ≠ 0 := by
-      have : ra1.tph = ra.tph := congrArg Prod.fst hb
-      rw [this]; exact ht
-    obtain ⟨ra', hg', hb'⟩ := ih _ ra1 hg1 ht1
-    exact ⟨ra', hg', hb'.trans hb⟩
+      · exact ⟨h1, h2, h3, fun _ => h4⟩
+    have ht1 : ra1.tph ≠ 0 := by rw [hb.1]; exact ht
+    obtain ⟨ra', hg', h1, h2, h3, h4⟩ := ih _ ra1 hg1 ht1
+    exact ⟨ra', hg', h1.trans hb.1, h2.trans hb.2.1, h3.trans hb.2.2.1, fun h => h4 (hb.2.2.2 h)⟩
 
 -- ---------------------------------------------------------------- total of the credited balances
 
